@@ -54,7 +54,8 @@ def run(out, prop, tier, seed, only_slices=None):
         if only_slices and label not in only_slices:
             continue
         cfg = CFG.format(writers=writers, kind=kind, dry=dry, dev='FALSE', init='Init', next='Next') + \
-            ''.join('INVARIANT %s\n' % f for f in FORMULAS) + 'PROPERTY ReturnedMeansStored\nINVARIANT Export\n'
+            ''.join('INVARIANT %s\n' % f for f in FORMULAS) + 'PROPERTY ReturnedMeansStored\nINVARIANT Export\n' + \
+            ('INVARIANT NoStuck\n' if (writers == 'W1' or tier != 'quick') else '')
         res = tlc.run('MC_AtomicWrite', 'g.cfg', files={'g.cfg': cfg}, timeout=3000)
         out.add_tlc(res, 'AtomicWrite/' + label)
         scs = res.exports
